@@ -80,7 +80,12 @@ def populate(g, t, client="c", nmin=3, nmax=9):
     r = g.r
     ops = []
     for _ in range(r.randrange(nmin, nmax)):
-        ops.append(dict(op="put", client=client, table=t["name"], item=g.item_of(t)))
+        if r.random() < 0.25:
+            # items created by UpdateItem (upsert) rather than PutItem
+            ops.append(dict(op="update", client=client, table=t["name"], key=g.key_of(t["schema"]), expr="SET s = :v",
+                            names={}, values={":v": S(r.choice(["x", "hello"]))}))
+        else:
+            ops.append(dict(op="put", client=client, table=t["name"], item=g.item_of(t)))
     return ops
 
 
@@ -104,10 +109,31 @@ def read_op(g, t, client="c", paged=False):
     return op
 
 
+def interleaved_partitions(g):
+    """partitions whose names extend one another ("a", "a.b", "ab"): their items interleave in the sorted key list"""
+    r = g.r
+    ops = [dict(op="create_table", client="c", table="tbl", hash=dict(name="h", type="S"), range=dict(name="r", type="S"),
+                billing="PAY_PER_REQUEST", throughput=True, attrs=[dict(name="g", type="S")],
+                gsi=[dict(name="gix", hash=dict(name="g"), throughput=True)])]
+    t = dict(name="tbl", schema=gen.SCHEMAS[1], indexes=[dict(name="gix", hash="g", range=None)])
+    for h in ["a", "a.b", "ab", "a"]:
+        for rk in r.sample(["1", "b", "b.1", "c", "z", "10", "b!"], r.randrange(2, 6)):
+            it = {"h": S(h), "r": S(rk)}
+            if r.random() < 0.6: it["g"] = S(r.choice(gen.IDXVALS))
+            ops.append(dict(op="put", client="c", table="tbl", item=it))
+    for h in ["a", "a.b", "ab"]:
+        for fw in (True, False):
+            ops.append(dict(op="query", client="c", table="tbl", keycond="h = :h", names={}, values={":h": S(h)}, forward=fw))
+    return t, ops
+
+
 def query_script(g):
     r = g.r
-    t, ops = g.create_ops("c", "tbl")
-    ops += populate(g, t)
+    if r.random() < 0.25:
+        t, ops = interleaved_partitions(g)
+    else:
+        t, ops = g.create_ops("c", "tbl")
+        ops += populate(g, t)
     for _ in range(r.randrange(4, 10)):
         if r.random() < 0.25:
             ops += g.data_op("c", [t], len(ops))[:1]
@@ -449,7 +475,7 @@ def nt_native(ops, obs):
 # ---------------- C16: restrictions ----------------
 def restrictions_script(g):
     r = g.r
-    ops = [dict(op="add_table", client="c", table="tbl", hash="h", range="r")]
+    ops = [dict(op="add_table", client="c", table="tbl", hash="h", range="r"), dict(op="add_table", client="c", table="tb2", hash="h", range="")]
     base = dict(client="c", table="tbl")
     ops.append(dict(op="put", item={"h": S("a"), "r": S("1"), "g": S("x")}, **base))
     words = ["name", "size", "status", "count", "data", "user", "zone", "comment", "hidden", "abort", "year", "ttl", "hash", "range", "key"]
@@ -457,9 +483,15 @@ def restrictions_script(g):
         k = r.random()
         w = r.choice(words)
         w = r.choice([w, w.upper(), w.capitalize()])
-        if k < 0.2: ops.append(dict(op="scan", filter="%s = :v" % w, names={}, values={":v": S("x")}, **base))
+        if k < 0.14: ops.append(dict(op="scan", filter="%s = :v" % w, names={}, values={":v": S("x")}, **base))
+        elif k < 0.2:
+            e = r.choice(["%s.code = :v", "%s[0] = :v", ":v = %s", "attribute_exists(%s.x)", "g = :v AND %s = :v", "NOT %s = :v", "contains(%s, :v)", "%s IN (:v)", "%s BETWEEN :v AND :v"]) % w
+            ops.append(dict(op="scan", filter=e, names={}, values={":v": S("x")}, **base))
         elif k < 0.3: ops.append(dict(op="scan", filter="#w = :v", names={"#w": w}, values={":v": S("x")}, **base))
-        elif k < 0.4: ops.append(dict(op="update", key={"h": S("a"), "r": S("1")}, expr="SET %s = :v" % w, names={}, values={":v": S("x")}, **base))
+        elif k < 0.36: ops.append(dict(op="update", key={"h": S("a"), "r": S("1")}, expr="SET %s = :v" % w, names={}, values={":v": S("x")}, **base))
+        elif k < 0.4:
+            e = r.choice(["SET %s.code = :v", "SET %s[0] = :v", "REMOVE %s[1]", "REMOVE %s.x", "SET g = %s.x", "ADD %s :v", "DELETE %s :v"]) % w
+            ops.append(dict(op="update", key={"h": S("a"), "r": S("1")}, expr=e, names={}, values=({":v": S("x")} if ":v" in e else {}), **base))
         elif k < 0.5: ops.append(dict(op="put", item={"h": S("a"), "r": S("2")}, cond="attribute_not_exists(%s)" % w, names={}, values={}, **base))
         elif k < 0.62:
             names = {r.choice(["#a", "#ab", "#a1", "a", "#", "#a-b"]): "g"}
@@ -469,9 +501,13 @@ def restrictions_script(g):
             vals = {r.choice([":v", ":vv", ":v1", "v", ":", ":v-1"]): S("x")}
             used = r.choice([":v", ":vv", ":v1"])
             ops.append(dict(op="scan", filter="g = %s" % used, names={}, values=vals, **base))
-        elif k < 0.86:
+        elif k < 0.80:
             n = r.choice([1, 24, 25, 26, 30])
             ops.append(dict(op="batch_write", client="c", requests={"tbl": [{"put": {"h": S("b%d" % i), "r": S("1")}} for i in range(n)]}))
+        elif k < 0.86:
+            n1, n2 = r.choice([(13, 13), (25, 1), (20, 20), (12, 13), (1, 25), (24, 1)])
+            ops.append(dict(op="batch_write", client="c", requests={"tbl": [{"put": {"h": S("b%d" % i), "r": S("1")}} for i in range(n1)],
+                                                                   "tb2": [{"put": {"h": S("c%d" % i)}} for i in range(n2)]}))
         elif k < 0.93:
             ops.append(dict(op="batch_write", client="c", requests={"tbl": [r.choice([{}, {"put": {"h": S("q"), "r": S("1")}, "delete": {"h": S("q"), "r": S("1")}}])]}))
         else:
